@@ -1,3 +1,6 @@
+from copy import deepcopy
+
+
 class _NoDefault:
     pass
 
@@ -14,7 +17,9 @@ class Symbol:
         if self.default == NO_DEFAULT:
             raise ValueError("no value and no default")
         else:
-            return self.default
+            # The decoder consumes the value it is given (items are popped,
+            # map entries deleted), so never hand out the schema's own object
+            return deepcopy(self.default)
 
     def __eq__(self, other):
         return self.__class__ == other.__class__
